@@ -784,7 +784,7 @@ class Precision:
 def call(fn, *a, **kw):
     """run a real function under the watchdog; ('ok', result) | ('err', class name)"""
     try:
-        with alarm(10.0):
+        with alarm(10.0), core.real_mode():
             return ("ok", fn(*a, **kw))
     except BaseException as e:   # noqa
         if isinstance(e, (KeyboardInterrupt, SystemExit)):
